@@ -75,8 +75,9 @@ func RefLex(s string) (toks []Tok, errLo, errHi int, Unclaimed bool, ok bool) {
 					continue
 				}
 				if !(isLet(s[j]) || isDig(s[j]) || s[j] == '_') {
-					// "--" glued to something that is neither a blank nor a name: not claimed
-					return nil, i, j + 1, true, false
+					// "--" glued to something that is neither a blank nor the start of a name (`--]`, `--|`, `--(`, a
+					// tab): the lexer asks for a long option name there
+					return nil, i, j + 1, false, false
 				}
 				for j < n && (isLet(s[j]) || isDig(s[j]) || s[j] == '_' || s[j] == '-') {
 					j++
